@@ -29,28 +29,40 @@ impl<T> SlotVec<T> {
     pub fn at_mut(&mut self, i: usize) -> &mut T {
         self.items[i].as_mut().unwrap()
     }
+    // Slots at positions >= len are always None. Elements are moved with ptr::read / ptr::write: a plain
+    // assignment `items[j] = ...` runs the drop glue of the old slot value, and for big element types
+    // (stored packets) CBMC explores that glue as phantom paths on every symbolic index (measured: GBs).
     pub fn push(&mut self, x: T) {
         assert!(self.len < CAP, "verif container model capacity exceeded");
-        self.items[self.len] = Some(x);
+        unsafe { core::ptr::write(&mut self.items[self.len], Some(x)) };
         self.len += 1;
     }
     pub fn insert_at(&mut self, i: usize, x: T) {
         assert!(self.len < CAP, "verif container model capacity exceeded");
+        assert!(i <= self.len, "index out of bounds");
         let mut j = self.len;
         while j > i {
-            self.items[j] = self.items[j - 1].take();
+            unsafe {
+                let v = core::ptr::read(&self.items[j - 1]);
+                core::ptr::write(&mut self.items[j], v);
+            }
             j -= 1;
         }
-        self.items[i] = Some(x);
+        unsafe { core::ptr::write(&mut self.items[i], Some(x)) };
         self.len += 1;
     }
     pub fn remove_at(&mut self, i: usize) -> T {
-        let x = self.items[i].take().unwrap();
+        assert!(i < self.len, "index out of bounds");
+        let x = unsafe { core::ptr::read(&self.items[i]) }.unwrap();
         let mut j = i;
         while j + 1 < self.len {
-            self.items[j] = self.items[j + 1].take();
+            unsafe {
+                let v = core::ptr::read(&self.items[j + 1]);
+                core::ptr::write(&mut self.items[j], v);
+            }
             j += 1;
         }
+        unsafe { core::ptr::write(&mut self.items[self.len - 1], None) };
         self.len -= 1;
         x
     }
